@@ -113,7 +113,7 @@ func zzFile() CDRFile {
 
 // C14: Decoding(Encoding(f)) == f.
 //
-//gosx:property=C14 tier=quick shards=6 p.maxrec=2 p.maxrec.thorough=3 p.extlens=2 p.extlens.thorough=3 p.payloadlens=2 p.payloadlens.thorough=4
+//gosx:property=C14 tier=quick shards=6 p.maxrec=2 p.maxrec.thorough=3 p.extlens=2 p.extlens.thorough=3 p.payloadlens=2 p.payloadlens.thorough=4 maxseconds.thorough=7200
 func ZZ_C14_RoundTrip() {
 	f := zzFile()
 	f.Encoding("/tmp/zz_c14.cdr")
@@ -253,7 +253,7 @@ func zzTSEq(a zzRefTS, b CdrHdrTimeStamp) bool {
 
 // C15: the bytes written follow the TS 32.297 layout.
 //
-//gosx:property=C15 tier=quick shards=6 p.maxrec=2 p.maxrec.thorough=3 p.extlens=2 p.extlens.thorough=3 p.payloadlens=2 p.payloadlens.thorough=4
+//gosx:property=C15 tier=quick shards=6 p.maxrec=2 p.maxrec.thorough=3 p.extlens=2 p.extlens.thorough=3 p.payloadlens=2 p.payloadlens.thorough=4 maxseconds.thorough=7200
 func ZZ_C15_Layout() {
 	f := zzFile()
 	// (one shard explores the rewrite, for files of up to two records)
